@@ -1,0 +1,22 @@
+//go:build verif
+// +build verif
+
+package input
+
+import "github.com/streadway/amqp"
+
+// VerifConsumeAMQP runs the AMQP consume loop over the given message bodies (verification harness only)
+func VerifConsumeAMQP(d Dispatcher, bodies [][]byte) {
+	ch := make(chan amqp.Delivery)
+	a := &Amqp{dispatcher: d, shutdown: make(chan struct{}), delivery: ch}
+	done := make(chan struct{})
+	go func() {
+		a.consumeAMQP()
+		close(done)
+	}()
+	for _, b := range bodies {
+		ch <- amqp.Delivery{Body: b}
+	}
+	close(a.shutdown)
+	<-done
+}
